@@ -112,6 +112,19 @@ fn case(cfg: &Config, tmp: &Path, idx: u64, r: &mut Rng, st: &mut Stats) {
         // a third program that must be ignored
         pool.push(("zzz(1).".to_string(), "lp"));
     }
+    let mut bare_name: Option<String> = None;
+    // files whose whole name is an extension (lp, .lp, po, .ug ...): they have no extension
+    if r.chance(1, 5) {
+        let bare = ["lp", ".lp", "po", ".po", "ug", ".ug", "spec", ".spec"][r.upto(8)];
+        let dir = ["", "d1", "zdir"][r.upto(3)];
+        let rel = if dir.is_empty() { bare.to_string() } else { format!("{dir}/{bare}") };
+        let p = work.join(&rel);
+        std::fs::create_dir_all(p.parent().unwrap()).unwrap();
+        if !p.exists() {
+            std::fs::write(&p, "this is not an input of anthem (").unwrap();
+            bare_name = Some(rel);
+        }
+    }
     // decoys of other extensions
     for _ in 0..r.upto(3) {
         let ext = ["txt", "LP", "lp~", "bak", "spec2", "", "md"][r.upto(7)];
@@ -121,6 +134,9 @@ fn case(cfg: &Config, tmp: &Path, idx: u64, r: &mut Rng, st: &mut Stats) {
     let names = ["a", "b", "m", "z", "0", "A", "_x", "k.1", "k.2", "d1", "d1-x", "d2", "zdir", "0dir+", "d1.sub"];
     let dirs = ["", "", "d1", "d2", "d1/sub", "zdir", "0dir"];
     let mut used: Vec<String> = Vec::new();
+    if let Some(b) = &bare_name {
+        used.push(b.clone());
+    }
     for (content, ext) in &pool {
         loop {
             let dir = dirs[r.upto(dirs.len())];
